@@ -449,7 +449,7 @@ fn wrap_some(rng: &mut Rng, t: Ty) -> Ty {
     }
 }
 
-pub const RULES: [&str; 21] = [
+pub const RULES: [&str; 23] = [
     "reserved-names",
     "dup-fields",
     "dup-args",
@@ -471,6 +471,8 @@ pub const RULES: [&str; 21] = [
     "directive-repeated",
     "directive-args",
     "directive-recursion",
+    "unique-type-names",
+    "unique-directive-names",
 ];
 
 /// diagnostics kinds that count for a rule (DESIGN.md Appendix C)
@@ -494,6 +496,9 @@ pub fn kinds_of_rule(rule: &str) -> &'static [&'static str] {
         "directive-repeated" => &["RepeatedDirective"],
         "directive-args" => &["ArgumentsNotNeeded", "RequiredArgumentNotSpecified", "UnknownArgument", "TypeMismatch", "UnknownEnumMember", "UnknownVariable", "DuplicatedName"],
         "directive-recursion" => &["RecursingDirective"],
+        // fix 8cdbacf (`check_unique_names`); a repeated name of ONE kind is stopped earlier by the resolver
+        "unique-type-names" => &["DuplicatedName", "DuplicateOriginal"],
+        "unique-directive-names" => &["DuplicatedName"],
         _ => &[],
     }
 }
@@ -1201,6 +1206,144 @@ pub fn mutate(rng: &mut Rng, items: &mut Vec<TsItem>, rule: &str) -> Option<Stri
                 }
             }
         }
+        "unique-type-names" => {
+            // a minimal well-formed body for a type of the given kind
+            let body = |rng: &mut Rng, items: &[TsItem], kind: TypeKind, name: &str| -> Option<TypeDef> {
+                let mut t = tdef(kind, name);
+                match kind {
+                    TypeKind::Object | TypeKind::Interface => t.fields = vec![fd("a", int())],
+                    TypeKind::Union => t.members = vec![nm(&name_of_kind(items, TypeKind::Object, rng)?)],
+                    TypeKind::Enum => t.values = vec![ev("A")],
+                    TypeKind::Input => t.inputs = vec![iv("a", int())],
+                    TypeKind::Scalar => {}
+                }
+                Some(t)
+            };
+            let kinds = [TypeKind::Scalar, TypeKind::Object, TypeKind::Interface, TypeKind::Union, TypeKind::Enum, TypeKind::Input];
+            match rng.below(4) {
+                0 => {
+                    // a second definition, of ANOTHER kind, of a name the schema already defines
+                    let k0 = kinds[rng.below(6)];
+                    let name = name_of_kind(items, k0, rng)?;
+                    let others: Vec<TypeKind> = kinds.iter().copied().filter(|k| *k != k0).collect();
+                    let k1 = others[rng.below(others.len())];
+                    let t = body(rng, items, k1, &name)?;
+                    insert_at_random(rng, items, TsItem::TypeDef(t));
+                    Some(format!("cross-kind:{}+{}", k0.as_str(), k1.as_str()))
+                }
+                1 => {
+                    // two fresh definitions of one name and different kinds (nothing else refers to the name)
+                    let k0 = kinds[rng.below(6)];
+                    let others: Vec<TypeKind> = kinds.iter().copied().filter(|k| *k != k0).collect();
+                    let k1 = others[rng.below(others.len())];
+                    let a = body(rng, items, k0, "ZDupName")?;
+                    let b = body(rng, items, k1, "ZDupName")?;
+                    insert_at_random(rng, items, TsItem::TypeDef(a));
+                    insert_at_random(rng, items, TsItem::TypeDef(b));
+                    Some(format!("fresh-pair:{}+{}", k0.as_str(), k1.as_str()))
+                }
+                2 => {
+                    // object + input object of one name, the input object completed by an extension (the clash is
+                    // still there after the extensions are resolved)
+                    let mut a = tdef(TypeKind::Object, "ZDupName");
+                    a.fields = vec![fd("a", int())];
+                    let mut b = tdef(TypeKind::Input, "ZDupName");
+                    b.inputs = vec![iv("a", int())];
+                    let mut e = ext_of(TypeKind::Input, "ZDupName");
+                    e.inputs = vec![iv("b", int())];
+                    insert_at_random(rng, items, TsItem::TypeDef(a));
+                    insert_at_random(rng, items, TsItem::TypeDef(b));
+                    insert_at_random(rng, items, TsItem::TypeExt(e));
+                    Some("fresh-pair:object+input-with-extension".into())
+                }
+                _ => {
+                    // a user type that takes the name of a built-in scalar
+                    let name = ["Int", "Float", "String", "Boolean", "ID"][rng.below(5)];
+                    let k1 = kinds[rng.below(6)];
+                    let mut t = body(rng, items, k1, name)?;
+                    // the body must not mention the clashing name itself
+                    if name == "Int" {
+                        for f in t.fields.iter_mut() {
+                            f.ty = Ty::named("String");
+                        }
+                        for f in t.inputs.iter_mut() {
+                            f.ty = Ty::named("String");
+                        }
+                    }
+                    insert_at_random(rng, items, TsItem::TypeDef(t));
+                    Some(format!("builtin-scalar-name:{}", k1.as_str()))
+                }
+            }
+        }
+        "unique-directive-names" => {
+            let user_dirs: Vec<usize> = items.iter().enumerate().filter(|(_, i)| matches!(i, TsItem::DirectiveDef(_))).map(|(k, _)| k).collect();
+            match rng.below(4) {
+                0 if !user_dirs.is_empty() => {
+                    // a verbatim second definition of a directive the schema defines
+                    let k = user_dirs[rng.below(user_dirs.len())];
+                    let mut copy = items[k].clone();
+                    if let TsItem::DirectiveDef(d) = &mut copy {
+                        d.desc = None;
+                    }
+                    insert_at_random(rng, items, copy);
+                    Some("verbatim-copy".into())
+                }
+                1 if !user_dirs.is_empty() => {
+                    // a second definition with other content: one more location / an additional optional argument
+                    let k = user_dirs[rng.below(user_dirs.len())];
+                    let mut copy = items[k].clone();
+                    if let TsItem::DirectiveDef(d) = &mut copy {
+                        d.desc = None;
+                        if rng.coin() {
+                            let extra = all[rng.below(all.len())].to_string();
+                            if !d.locations.contains(&extra) {
+                                d.locations.push(extra);
+                            }
+                        } else {
+                            d.args.push(iv("zExtra", int()));
+                        }
+                    }
+                    insert_at_random(rng, items, copy);
+                    Some("changed-copy".into())
+                }
+                2 => {
+                    insert_at_random(rng, items, dirdef("zdup", vec![], false, &["OBJECT"]));
+                    insert_at_random(rng, items, dirdef("zdup", vec![iv("x", int())], true, &["FIELD_DEFINITION", "OBJECT"]));
+                    Some("fresh-pair:different-content".into())
+                }
+                _ => {
+                    // three definitions of one name
+                    for _ in 0..3 {
+                        insert_at_random(rng, items, dirdef("zdup", vec![], false, &["SCALAR"]));
+                    }
+                    Some("fresh-triple".into())
+                }
+            }
+        }
         _ => None,
     }
+}
+
+/// verbatim re-declarations of built-in directives (`crates/builtins/src/lib.rs`): ALLOWED by the checker (fix 8cdbacf
+/// reports a repeated directive name only between two user definitions). Returns the names that were re-declared.
+pub fn redeclare_builtin_directives(rng: &mut Rng, items: &mut Vec<TsItem>) -> Vec<String> {
+    let boolean_nn = || Ty::non_null(Ty::named("Boolean"));
+    let mut deprecated_reason = iv("reason", Ty::named("String"));
+    deprecated_reason.default = Some(Val::Str("No longer supported".into(), p0()));
+    let all: Vec<(&str, TsItem)> = vec![
+        ("skip", dirdef("skip", vec![iv("if", boolean_nn())], false, &["FIELD", "FRAGMENT_SPREAD", "INLINE_FRAGMENT"])),
+        ("include", dirdef("include", vec![iv("if", boolean_nn())], false, &["FIELD", "FRAGMENT_SPREAD", "INLINE_FRAGMENT"])),
+        ("deprecated", dirdef("deprecated", vec![deprecated_reason], false, &["FIELD_DEFINITION", "ARGUMENT_DEFINITION", "INPUT_FIELD_DEFINITION", "ENUM_VALUE"])),
+        ("specifiedBy", dirdef("specifiedBy", vec![iv("url", Ty::non_null(Ty::named("String")))], false, &["SCALAR"])),
+    ];
+    let mut out = vec![];
+    let n = 1 + rng.below(all.len());
+    let mut pool = all;
+    for _ in 0..n {
+        let k = rng.below(pool.len());
+        let (name, it) = pool.remove(k);
+        insert_at_random(rng, items, it);
+        out.push(name.to_string());
+    }
+    out
 }
